@@ -32,13 +32,21 @@ def is_error_reply(txt):
 
 
 def check_line(line):
-    """One fresh session, one line; returns list of violations."""
+    """One fresh session, one line; returns list of violations.
+
+    A line prefixed with '!failed! ' is sent to a session whose pool already holds a task that ended with an
+    exception (so that flush / gather-and-close have something to raise)."""
     out = []
     cap = Capture()
     loop = fresh_loop()
     rec = vw.Recorder(loop)
     vw.ACTIVE = rec
     pool = TaskPool(pool_size=3)
+    prefailed = line.startswith("!failed! ")
+    if prefailed:
+        line = line[len("!failed! "):]
+        pool.apply(vw.boom, args=(1,))
+        loop.run_idle()
     with cap.active():
         s = Session(loop, pool, 80)
         loop.run_idle()
@@ -147,6 +155,9 @@ def explorer_cells(tier):
     # (d) two sessions on one pool
     cell("two sessions help|flush slowecb", tasks=1, slow_ecb=[0], sessions=[["flush", "num-ended", H], ["-h", "nope", "map --help"]])
     cell("two sessions errors|gac t1", tasks=1, sessions=[["gather-and-close"], ["cancel x", "pool-size -h", "apply"]])
+    # a task that fails: flush / gather-and-close raise inside the awaited pool method
+    cell("wait flush failing t2", tasks=2, fail=[0], sessions=[["flush", "num-running", "flush -r", H]])
+    cell("wait gac failing t2 | help", tasks=2, fail=[1], sessions=[["gather-and-close", "nope"], ["-h", "num-ended"]])
     if not q:
         cell("T wait gac t3 slowecb", tasks=3, slow_ecb=[1], sessions=[["num-running", "gather-and-close -r", "cancel -h"]])
         cell("T three sessions", tasks=2, slow_ecb=[0], sessions=[["flush", H], ["-h", "cancel x"], ["until-closed"], ["gather-and-close"]])
@@ -167,6 +178,8 @@ def run(tier, seed):
     for combo in itertools.product(red, repeat=L + 1):
         lines.add(" ".join(combo))
     lines |= {"until-closed", " leading", "trailing ", "a  b", "apply  " + VW + "work", "\t", "apply\t-h"}
+    lines |= {"!failed! " + ln for ln in ("flush", "flush -r", "gather-and-close", "gather-and-close -r", "num-ended", "cancel 0", "-h",
+                                          "flush --return-exceptions", "cancel-all", "get-group-ids apply-boom-group-0")}
     lines = sorted(ln for ln in lines if ln.strip())
     pairs = [(a, b) for a in NEUTRAL for b in NEUTRAL]
     viols = []
